@@ -41,6 +41,7 @@ def plan(tier, seed):
     specs.append({'kind': 'corpus'})
     for s in range(2 if tier == 'quick' else 8):
         specs.append({'kind': 'ident', 'ishard': s, 'docs': 30 if tier == 'quick' else 150})
+    specs.append({'kind': 'lazycut', 'docs': 60 if tier == 'quick' else 600})
     return specs
 
 
@@ -562,7 +563,69 @@ def run_ident(spec, res):
                 res.sample({'family': 'lib', 'seeded_duplicates': [d[0] for d in dups], 'chars': len(text)})
 
 
+# The cut made by a lazy resource: the chunks at depth N are looked up on the schema by the path of N steps under the root.
+# Every level has a *local* declaration (xs:int content) and a same-named *global* one of another type: a chunk governed by
+# anything but the declaration its path selects gives another verdict.
+LAZYCUT_XSD = """<xs:schema xmlns:xs="http://www.w3.org/2001/XMLSchema">
+<xs:element name="group" type="xs:string"/><xs:element name="item" type="xs:string"/><xs:element name="leaf" type="xs:boolean"/>
+<xs:element name="root"><xs:complexType><xs:sequence>
+ <xs:element name="group" maxOccurs="unbounded"><xs:complexType><xs:sequence>
+  <xs:element name="item" maxOccurs="unbounded"><xs:complexType><xs:sequence>
+   <xs:element name="leaf" type="xs:int" minOccurs="0" maxOccurs="unbounded"/>
+   <xs:element name="only" type="xs:int" minOccurs="0"/>
+  </xs:sequence><xs:attribute name="n" type="xs:int"/></xs:complexType></xs:element>
+ </xs:sequence><xs:attribute name="g" type="xs:int"/></xs:complexType></xs:element>
+</xs:sequence></xs:complexType></xs:element></xs:schema>"""
+
+
+def run_lazycut(spec, res):
+    xmlschema = env.activate_repo()
+    rng = env.rng_for(PROPERTY, spec['tier'], spec['seed'], 'lazycut')
+    for version, cls in (('1.0', xmlschema.XMLSchema10), ('1.1', xmlschema.XMLSchema11)):
+        schema = cls(LAZYCUT_XSD)
+        for d in range(spec['docs']):
+            nfaults = rng.choice((0, 1, 1, 2))
+            groups, slots = [], []
+            for gi in range(rng.randint(1, 3)):
+                items = []
+                for ii in range(rng.randint(1, 3)):
+                    leaves = [f'<leaf>{rng.randint(0, 9)}</leaf>' for _ in range(rng.randint(0, 3))]
+                    if rng.random() < 0.3:
+                        leaves.append('<only>1</only>')
+                    items.append([f'<item n="{ii}">', leaves, '</item>'])
+                    slots += [('leaf', gi, ii, k) for k in range(len(leaves))] + [('item', gi, ii, None)]
+                groups.append([f'<group g="{gi}">', items, '</group>'])
+                slots.append(('group', gi, None, None))
+            for kind, gi, ii, k in rng.sample(slots, min(nfaults, len(slots))):
+                if kind == 'leaf':
+                    groups[gi][1][ii][1][k] = groups[gi][1][ii][1][k].replace('>', '>x', 1)     # not an xs:int
+                elif kind == 'item':
+                    groups[gi][1][ii][0] = groups[gi][1][ii][0].replace('n="', 'n="x')
+                else:
+                    groups[gi][0] = groups[gi][0].replace('g="', 'g="x')
+            text = '<root>' + ''.join(g[0] + ''.join(i[0] + ''.join(i[1]) + i[2] for i in g[1]) + g[2] for g in groups) + '</root>'
+            full = sorted(e.reason or '' for e in schema.iter_errors(text))
+            for lazy in (1, 2, 3):
+                for thin in (True, False):
+                    res.evaluations += 1
+                    case = {'family': 'lazycut', 'version': version, 'doc': text, 'resource': {'lazy': lazy, 'thin_lazy': thin}}
+                    res.nontrivial.add(env.h8(('lazycut', lazy, thin, len(full), text)))
+                    try:
+                        got = sorted(e.reason or '' for e in schema.iter_errors(xmlschema.XMLResource(text, lazy=lazy, thin_lazy=thin)))
+                        ok = schema.is_valid(xmlschema.XMLResource(text, lazy=lazy, thin_lazy=thin))
+                    except xmlschema.XMLSchemaException as e:
+                        res.violation(f'lazycut:raised:lazy={min(lazy, 2)}:{type(e).__name__}', case, f'{version} lazy={lazy} thin={thin}: {e!r:.200}')
+                        continue
+                    if got != full or ok != (not full):
+                        res.violation(f'lazycut:errors-differ:lazy={"1" if lazy == 1 else ">=2"}', case,
+                                      f'{version} lazy={lazy} thin={thin}: cut run {got[:3]} valid={ok}; full run {full[:3]}; doc {text[:200]}')
+                    else:
+                        res.count('lazycut:agree' + ('_nonempty' if full else ''))
+
+
 def run_shard(spec, res):
+    if spec['kind'] == 'lazycut':
+        return run_lazycut(spec, res)
     if spec['kind'] == 'gen':
         run_gen(spec, res)
     elif spec['kind'] == 'ident':
@@ -576,7 +639,7 @@ def finalize(res, tier):
     reasons = []
     if not c.get('recorder:hits'):
         reasons.append('recorder on XsdElement.raw_decode never fired')
-    for k in ('lookup:agree', 'partial:objects:agree', 'partial:errors:agree_nonempty', 'max_depth:agree', 'ident:agree_nonempty'):
+    for k in ('lookup:agree', 'partial:objects:agree', 'partial:errors:agree_nonempty', 'max_depth:agree', 'ident:agree_nonempty', 'lazycut:agree_nonempty'):
         if not c.get(k):
             reasons.append(f'deciding tally {k} is empty')
     return {'inconclusive': reasons}
@@ -589,6 +652,14 @@ def replay(case):
     res = Result()
     if 'corpus' in case:
         run_corpus({}, res)
+    elif case.get('family') == 'lazycut':
+        cls = xmlschema.XMLSchema10 if case['version'] == '1.0' else xmlschema.XMLSchema11
+        schema = cls(LAZYCUT_XSD)
+        full = sorted(e.reason or '' for e in schema.iter_errors(case['doc']))
+        part = sorted(e.reason or '' for e in schema.iter_errors(xmlschema.XMLResource(case['doc'], **case['resource'])))
+        print('full run:', full)
+        print('cut run:', case['resource'], part)
+        return full != part
     elif case.get('family') == 'lib':
         cls = xmlschema.XMLSchema10 if case['version'] == '1.0' else xmlschema.XMLSchema11
         schema = cls(LIB_XSD)
